@@ -155,7 +155,14 @@ def run_sm(mod, proto, role, seq, k):
     if role == "w":
         for n in base.__abstractmethods__:
             if n.startswith("_write_"):
-                impls[n] = (lambda self, value: [x for x in value] if hasattr(value, "__iter__") and not isinstance(value, (str, bytes)) else None)
+                def impl(self, value):
+                    if isinstance(value, str) and value == "RAISE":
+                        raise RuntimeError("stub implementation raises")
+                    if hasattr(value, "__iter__") and not isinstance(value, (str, bytes)):
+                        for x in value:
+                            if isinstance(x, str) and x == "RAISE":
+                                raise RuntimeError("stub implementation raises")
+                impls[n] = impl
             else:
                 impls[n] = (lambda self, *a: None)
     else:
@@ -189,6 +196,9 @@ def run_sm(mod, proto, role, seq, k):
                     fn([1] * int(arg))
                 elif op == "g":
                     fn((x for x in range(int(arg))))
+                elif op == "x":
+                    # an in-order call whose implementation raises (scalar for a value step, a one-item list for a stream step)
+                    fn(["RAISE"] if arg == "s" else "RAISE")
                 out.append("ok")
             else:
                 fn = getattr(obj, "read_" + step)
@@ -223,7 +233,6 @@ def run_sm(mod, proto, role, seq, k):
                     out.append("ok")
         except BaseException as e:
             out.append("throw:" + type(e).__name__)
-            break
     return out
 
 
